@@ -70,6 +70,19 @@ class glyph_names:
     known_witnesses = {"F6": lambda: {"a": (0x67, 0x1F600), "b": (0x1F600,)}}
 
 
+@contract("nanoemoji.glyph._name", props=["C10", "C04"])
+class glyph_name_tokens:
+    # exhaustive enumeration of all 0x110000 code points (complete, not sampled): the token
+    # lemma behind "names of distinct sequences are distinct and legal": a token is the letter
+    # itself for ASCII letters and lower-case hex (no '_') for everything else
+    bounded_only = True
+    gen = lambda rng: {}
+    native_call = H.name_token_problems
+    n_quick = 1
+    n_thorough = 1
+    ensures = {"tokens": lambda result: result == []}
+
+
 @contract("nanoemoji.features.generate_fea", props=["C04"])
 class generate_fea:
     bounded_only = True
